@@ -305,11 +305,17 @@ Definition round_ok (r : N * bool * list elem) : bool :=
   let '(n, e, b) := r in
   N.leb n (lenN b 0) && (e || match b with [] => false | _ => true end).
 Definition tb_accept_obs (rounds : list (N * bool * list elem)) : bool := forallb round_ok rounds.
+(* a round at a quiescent point (no producer step between size(), empty() and consume()):
+   the observations describe the batch exactly *)
+Definition round_exact (r : N * bool * list elem) : bool :=
+  let '(n, e, b) := r in
+  N.eqb n (lenN b 0) && Bool.eqb e (match b with [] => true | _ => false end).
+Definition tb_accept_quiet (rounds : list (N * bool * list elem)) : bool := forallb round_exact rounds.
 Definition is_prod (a : tb_actor) : bool := match a with TProd _ => true | TCons _ => false end.
 
 (* TransactionalValue: the consumer's events are replayed against the (tagged) values
    still to come *)
-Definition tagv := (N * N)%type.
+Notation tagv := (N * N)%type.
 Definition eqv (a b : tagv) : bool := N.eqb (fst a) (fst b) && N.eqb (snd a) (snd b).
 Fixpoint drop_to (v : tagv) (rest : list tagv) : option (list tagv) :=
   match rest with
@@ -336,6 +342,48 @@ Definition tv_accept_prefix (v0 : N) (vs : list N) (l : list hev) : bool :=
    last value has been obtained *)
 Definition tv_accept (v0 : N) (vs : list N) (l : list hev) : bool :=
   match tv_acc (tagN 1 vs) (0, v0) l with Some [] => true | _ => false end.
+
+(* The consumer's history as the harness records it, produced by the model itself: the
+   micro-step system plus ghost recording.  HArm: the consumer reads the producer's
+   "quiet" announcement - possible when the producer is outside operator= (it then waits
+   for the acknowledgement, i.e. takes no step until the consumer's update() has returned;
+   any producer step disarms); the announced number is the count of completed assignments.
+   When an armed update() returns, the marker becomes ready; HMark appends it to the history
+   (get() calls may come in between; the next update() discards it).  n = length vs. *)
+Definition is_cidle (c : cpc) : bool := match c with CIdle => true | _ => false end.
+Definition is_pidle {V} (p : ppc V) : bool := match p with PIdle => true | _ => false end.
+Definition is_update {V} (e : event V) : bool := match e with EvUpdate _ _ => true | EvGet _ => false end.
+Record tvh := { h_sys : tv_sys tagv; h_hist : list hev; h_armed : option N; h_ready : option N }.
+Inductive tvh_actor := HRun (a : tv_actor) | HArm | HMark.
+Definition tvh_init (v0 : N) (vs : list N) : tvh :=
+  {| h_sys := tv_init_tagged v0 vs; h_hist := []; h_armed := None; h_ready := None |}.
+Definition tvh_step (n : nat) (h : tvh) (a : tvh_actor) : tvh :=
+  let s := h_sys h in
+  match a with
+  | HRun AProd =>
+      {| h_sys := tv_step s AProd; h_hist := h_hist h; h_armed := None; h_ready := h_ready h |}
+  | HRun (ACons c) =>
+      let s' := tv_step s (ACons c) in
+      let ne := skipn (length (log s)) (log s') in
+      if existsb is_update ne
+      then {| h_sys := s'; h_hist := h_hist h ++ map HEv ne; h_armed := None; h_ready := h_armed h |}
+      else {| h_sys := s'; h_hist := h_hist h ++ map HEv ne; h_armed := h_armed h;
+              h_ready := if is_cidle (c_pc s) && is_cidle (c_pc s') then h_ready h else None |}
+  | HArm =>
+      if is_pidle (p_pc s) && is_cidle (c_pc s)
+      then {| h_sys := s; h_hist := h_hist h;
+              h_armed := Some (N.of_nat (n - length (p_rem s))); h_ready := h_ready h |}
+      else h
+  | HMark =>
+      match h_ready h with
+      | Some i => {| h_sys := s; h_hist := h_hist h ++ [HQuiet i]; h_armed := h_armed h; h_ready := None |}
+      | None => h
+      end
+  end.
+Definition tvh_run (n : nat) (h : tvh) (sched : list tvh_actor) : tvh := fold_left (tvh_step n) sched h.
+(* the underlying schedule of the micro-step system *)
+Fixpoint tvh_proj (sched : list tvh_actor) : list tv_actor :=
+  match sched with [] => [] | HRun a :: t => a :: tvh_proj t | _ :: t => tvh_proj t end.
 
 (* --------------------------------------------------------------- lockset *)
 Import String.StringSyntax.
